@@ -491,6 +491,58 @@ func (t *trans) expr(e ast.Expr) string {
 		if len(x.Elts) == 0 {
 			return "(default : " + t.leanType(x.Type) + ")"
 		}
+		// a slice literal with elements
+		if at, ok := x.Type.(*ast.ArrayType); ok && at.Len == nil {
+			var els []string
+			for _, el := range x.Elts {
+				els = append(els, t.expr(el))
+			}
+			return "([" + strings.Join(els, ", ") + "] : (List " + t.leanType(at.Elt) + "))"
+		}
+		// a struct literal with named fields: the fields whose values are strings, booleans, integers, pointers to those or string
+		// slices are set; the others (keys, certificates, clients, URLs, …) keep the structure's default and nothing is said of them
+		if tvl, ok := t.info.Types[x]; ok && tvl.Type != nil {
+			if sname, _ := namedOf(tvl.Type); sname != "" {
+				if _, isS := t.structs[sname]; isS {
+					simple := func(ty types.Type) bool {
+						switch u := ty.Underlying().(type) {
+						case *types.Basic:
+							return u.Info()&(types.IsString|types.IsBoolean|types.IsInteger) != 0
+						case *types.Pointer:
+							b, ok := u.Elem().Underlying().(*types.Basic)
+							return ok && b.Info()&(types.IsString|types.IsBoolean|types.IsInteger) != 0
+						case *types.Slice:
+							b, ok := u.Elem().Underlying().(*types.Basic)
+							return ok && b.Info()&types.IsString != 0
+						}
+						return false
+					}
+					var sets []string
+					allKV := true
+					for _, el := range x.Elts {
+						kv, ok := el.(*ast.KeyValueExpr)
+						if !ok {
+							allKV = false
+							break
+						}
+						tvv, ok := t.info.Types[kv.Value]
+						if !ok || tvv.Type == nil || !simple(tvv.Type) {
+							continue
+						}
+						k := t.src(kv.Key)
+						t.useField(sname, k)
+						sets = append(sets, k+" := "+t.expr(kv.Value))
+					}
+					if allKV {
+						t.touchStruct(sname)
+						if len(sets) == 0 {
+							return "(default : " + sname + ")"
+						}
+						return "{ (default : " + sname + ") with " + strings.Join(sets, ", ") + " }"
+					}
+				}
+			}
+		}
 	case *ast.CallExpr:
 		return t.call(x)
 	}
@@ -761,6 +813,11 @@ func (t *trans) call(c *ast.CallExpr) string {
 					return t.expr(c.Args[0])
 				}
 			}
+		}
+		if f.Name == "defaultSigningMethodForKey" && len(c.Args) == 1 {
+			// the method that goes with the configured key: one unknown of the range
+			t.addExtern("defaultSigningMethodOfKey", "String")
+			return "env.defaultSigningMethodOfKey"
 		}
 		if f.Name == "getSPMetadata" && len(c.Args) == 1 {
 			// reads and parses the request body: a function of the request
@@ -2265,6 +2322,7 @@ func translate(repo string, p *pkgFiles, outPath string) {
 		{fn: "ServeACS", recv: "Middleware", trace: true},
 		{fn: "GetTrackedRequests", recv: "CookieRequestTracker"},
 		{fn: "GetTrackedRequest", recv: "CookieRequestTracker"},
+		{fn: "DefaultServiceProvider", as: "defaultServiceProviderTail", anchor: "var forceAuthn *bool"},
 		{fn: "GetSession", recv: "CookieSessionProvider", as: "cookieGetSession"},
 		{fn: "CreateSession", recv: "CookieSessionProvider", as: "cookieCreateSession", trace: true, mutRecv: true},
 		{fn: "Decode", recv: "JWTTrackedRequestCodec", as: "trackedRequestClaimsCheck", anchor: "if err != nil {"},
@@ -2466,6 +2524,11 @@ func translatePkg(p *pkgFiles, outPath string, pkgName string, ns string, specs 
 	}
 	for _, s := range specs {
 		t.specs[key(s)] = s
+		if s.recv == "" && s.as != "" {
+			if fd, ok := t.funcs[s.fn]; ok {
+				t.funcs[s.as] = fd
+			}
+		}
 		if s.recv != "" {
 			if fd, ok := t.funcs[s.recv+"."+s.fn]; ok {
 				t.funcs[key(s)] = fd
